@@ -12,6 +12,7 @@
 import HotXL.Model.Eval
 import HotXL.Lemmas.ErrorFlow
 import HotXL.Lemmas.NoOpinion
+import HotXL.Lemmas.Routes
 
 namespace HotXL.Props.C08
 open HotXL HotXL.Ops HotXL.Eval HotXL.Syntax HotXL.ErrorFlow
@@ -530,6 +531,35 @@ theorem nested_calls_carry_errors (env : Env) (names : List (List Char)) (x : Ex
     obtain ⟨f, hf, hp⟩ := hn n (List.mem_cons_self ..)
     have ih' := ih (fun m hm => hn m (List.mem_cons_of_mem _ hm))
     exact call_outcome_error env n .flat [wrapCalls ns x] [] [.err e] [] f e (outcomes_one ih') rfl hf (hp e)
+
+/-! ### route independence of the operators
+
+  An operator node sees the outcomes of its operand expressions — values or raised exceptions — and
+  nothing else of them: a variable, a cell, a call or a literal with the same outcome gives the same
+  record, error code included (the model-side statement of the route layer, DESIGN.md 1.7). -/
+
+/-- Operator nodes over operands with equal outcomes have equal records, from whichever logs the
+    evaluations start. -/
+theorem operator_sees_operand_outcomes (env : Env) (op : BinOp) {l l' r r' : Expr} (log log' : Log)
+    (hl : outcome env l = outcome env l') (hr : outcome env r = outcome env r') :
+    finish (evalExpr env (.bin op l r) log).1 = finish (evalExpr env (.bin op l' r') log').1 := by
+  rw [evalExpr_fst, evalExpr_fst, Routes.bin_congr env op hl hr]
+
+/-- The same for unary minus. -/
+theorem negation_sees_operand_outcome (env : Env) {e e' : Expr} (log log' : Log)
+    (h : outcome env e = outcome env e') :
+    finish (evalExpr env (.neg e) log).1 = finish (evalExpr env (.neg e') log').1 := by
+  rw [evalExpr_fst, evalExpr_fst, Routes.neg_congr env h]
+
+/-- non-vacuity: the error value `#DIV/0!` as the value of a variable and as the result of `1/0`
+    are the same operand to `+` -/
+example :
+    let env : Env := { Env.empty with vars := fun k => if k = ['x'] then some (.err .div0) else none }
+    finish (evalExpr env (.bin .add (.var [['x']]) (.num (.int ['1']))) []).1 =
+      finish (evalExpr env (.bin .add oneByZero (.num (.int ['1']))) [.var ['y']]).1 := by
+  intro env
+  exact operator_sees_operand_outcomes env .add [] [.var ['y']]
+    ((Routes.var_route (by rfl) []).trans (outcome_oneByZero env).symm) rfl
 
 /-! ### concrete formulas (non-vacuity; the cases that were wrong before the repairs) -/
 
